@@ -78,7 +78,6 @@ def run(chk) -> None:
     why = c17e.check_find_clashes(chk, fi, radii, c["molprobity_extra"]) if total else "the radii of the atom types are not total"
     if why is None:
         # decided on the current code whatever its shape; the pinned forms are not consulted
-        chk.robust |= {"clash-definition", "distance-threshold", "option-filter", "occupancy-rule", "occupancy-sum", "pair-roles"}
         chk.ok("molprobity-term", fi.where, f"the extra tolerance is decided by rule `distance-threshold`: pairs just below r_a + r_b + {c['molprobity_extra']} are accepted and pairs just above rejected in MolProbity mode, r_a + r_b otherwise")
         truthy = [n for n in ast.walk(fi.node) if isinstance(n, ast.BoolOp) and isinstance(n.op, ast.Or) and any(isinstance(v, ast.Attribute) and v.attr == "occupancy" for v in n.values)]
         chk.expect(not truthy, "optional-truthiness", fi.site(truthy[0]) if truthy else fi.where, "no `occupancy or default`: a stated occupancy of 0.0 is kept", f"`{norm(truthy[0])}` replaces a stated occupancy of 0.0 by the default" if truthy else "", K(fi, "occupancy-or"))
@@ -304,8 +303,6 @@ def check_cli(chk, fi) -> None:
     from checks import c17e
 
     why = c17e.check_main(chk, mn)
-    if why is None:
-        chk.robust |= {"report-clashes", "report-grouping", "report-maxima", "report-loops"}
     # accumulators read what they write
     n_acc = 0
     for s in ast.walk(mn.node):
